@@ -601,6 +601,22 @@ struct Engine
     }
 
     // environment expansion of one alphabet op in a model state (rr quantiles, clock deviations)
+    // rr, C15: an insert_range of distinct keys, none of them live, that takes the cache from non-full to one
+    // element over capacity (so the last element causes the only eviction of the call)
+    bool c15_one_eviction_range(const Model& m, const Op& o) const
+    {
+        if (o.k != OpK::InsertRange || o.n < 2 || (long)m.obs.size + o.n != (long)cfg.cap + 1)
+            return false;
+        for (int j = 0; j < o.n; j++)
+        {
+            if (SP::live(m, o.key[j]) || m.e[o.key[j]].present)
+                return false;
+            for (int i = 0; i < j; i++)
+                if (o.key[i] == o.key[j])
+                    return false;
+        }
+        return true;
+    }
     void expand(const Model& m, int depth, std::vector<Op>& out)
     {
         out.clear();
@@ -613,6 +629,17 @@ struct Engine
                 continue;
             for (int j = 0; j < o.n; j++)
                 o.wid[j] = depth * 4 + j + 1;
+            if (ck == CK::rr && o.k == OpK::InsertRange && (o.allow & 1) && a.rngq_all && m.obs.size < cfg.cap && c15_one_eviction_range(m, o))
+            {
+                // a range of new keys that starts on a non-full cache and overflows it by exactly one: the
+                // single eviction happens inside the range call - all quantiles, aggregated like single inserts
+                for (int q = 0; q < RNGQ; q++)
+                {
+                    o.rngq = q;
+                    out.push_back(o);
+                }
+                continue;
+            }
             if (ck == CK::rr && is_insert(o.k) && (o.allow & 1) && m.obs.size >= cfg.cap)
             {
                 bool anynew = false;
@@ -717,8 +744,14 @@ struct Engine
         std::unordered_map<std::string, std::pair<Model, Result>> pc;
         std::unordered_set<std::string>                           pbad;
         // C15 aggregation: victims per (insert key) over the quantile branches
-        std::map<int, std::map<int, int>> c15;
-        std::map<int, int>                c15n;
+        struct C15G
+        {
+            std::map<int, int> victims;
+            std::vector<int>   residents;
+            int                n{0};
+            Op                 op;
+        };
+        std::map<std::string, C15G> c15;
         std::vector<Viol>                 vs;
         for (auto& op : ops)
         {
@@ -731,6 +764,13 @@ struct Engine
             {
                 std::string pk = prefix_key(op, op.n - 1);
                 auto        it = pc.find(pk);
+                if (it == pc.end() && ck == CK::rr && op.rngq != 0 && m.obs.size < cfg.cap && c15_one_eviction_range(m, op))
+                {
+                    // the prefix of such a range evicts nothing, so its outcome does not depend on the quantile
+                    Op p0   = op;
+                    p0.rngq = 0;
+                    it      = pc.find(prefix_key(p0, op.n - 1));
+                }
                 if (it == pc.end())
                 {
                     // prefix was pruned (violation there) or not in the alphabet: do not judge this op
@@ -869,15 +909,28 @@ struct Engine
             if (is_range(op.k))
                 pc.emplace(prefix_key(op, op.n), std::make_pair(post, t.r));
         accept:
-            if (ck == CK::rr && op.k == OpK::Insert && a.rngq_all && m.obs.size >= cfg.cap && !SP::live(m, op.key[0]) &&
-                (op.allow & 1))
+            if (ck == CK::rr && a.rngq_all && (op.allow & 1) &&
+                ((op.k == OpK::Insert && m.obs.size >= cfg.cap && !SP::live(m, op.key[0])) ||
+                 (m.obs.size < cfg.cap && c15_one_eviction_range(m, op))))
             {
+                Op gk   = op;
+                gk.rngq = 0;
+                C15G& g = c15[op_ser(gk)];
+                if (g.n == 0)
+                {
+                    g.op = gk;
+                    for (int j = 1; j <= cfg.nkeys; j++)
+                        if (SP::live(m, j))
+                            g.residents.push_back(j);
+                    for (int j = 0; j + 1 < op.n; j++) // (range: the elements stored before the evicting one)
+                        g.residents.push_back(op.key[j]);
+                }
                 int victim = 0;
-                for (int j = 1; j <= cfg.nkeys; j++)
-                    if (j != op.key[0] && SP::live(m, j) && !t.sc.e[j].present)
+                for (int j : g.residents)
+                    if (!t.sc.e[j].present)
                         victim = j;
-                c15[op.key[0] * 4 + op.allow][victim]++;
-                c15n[op.key[0] * 4 + op.allow]++;
+                g.victims[victim]++;
+                g.n++;
             }
             Succ s;
             s.op  = op;
@@ -941,30 +994,25 @@ struct Engine
         {
             for (auto& kv : c15)
             {
-                if (c15n[kv.first] != RNGQ)
+                C15G& g = kv.second;
+                if (g.n != RNGQ)
                     continue; // some branch was pruned
                 c15_groups++;
-                int  n  = 0;
-                for (int j = 1; j <= cfg.nkeys; j++)
-                    n += SP::live(m, j);
-                bool bad = false;
+                int         n   = (int)g.residents.size();
+                bool        bad = false;
                 std::string desc;
-                for (int j = 1; j <= cfg.nkeys; j++)
-                    if (SP::live(m, j))
-                    {
-                        int c = kv.second.count(j) ? kv.second[j] : 0;
-                        desc += "key" + std::to_string(j) + ":" + std::to_string(c) + " ";
-                        if (c * n != RNGQ)
-                            bad = true;
-                    }
+                for (int j : g.residents)
+                {
+                    int c = g.victims.count(j) ? g.victims[j] : 0;
+                    desc += "key" + std::to_string(j) + ":" + std::to_string(c) + " ";
+                    if (c * n != RNGQ)
+                        bad = true;
+                }
                 if (bad)
                 {
-                    Op o;
-                    o.k      = OpK::Insert;
-                    o.n      = 1;
-                    o.key[0] = kv.first / 4;
-                    o.allow  = kv.first % 4;
-                    o.wid[0] = depth * 4 + 1;
+                    Op o = g.op;
+                    for (int j = 0; j < o.n; j++)
+                        o.wid[j] = depth * 4 + j + 1;
                     record_violation(
                         hist,
                         o,
@@ -1238,8 +1286,123 @@ struct Engine
             if (bad)
                 break;
         }
+        // C15's two aggregate clauses are statements about ALL generator quantiles of the last eviction(s):
+        // re-evaluate them here (the single run above shows one quantile only)
+        if (!bad && ck == CK::rr && whitebox && a.prop == 15 && !ops.empty())
+            bad += replay_c15(ops);
         printf(bad ? "RESULT: deviation reproduced\n" : "RESULT: no deviation\n");
         return bad ? 1 : 0;
+    }
+
+    int replay_c15(const std::vector<Op>& ops)
+    {
+        // model state before the last op / before the last two ops
+        auto model_after = [&](size_t n) {
+            Model           m = SP::initial(cfg);
+            std::vector<Op> h;
+            for (size_t i = 0; i < n; i++)
+            {
+                Tr                t = exec(h, &ops[i]);
+                std::vector<Viol> vs;
+                if (is_range(ops[i].k) && ops[i].n >= 2)
+                {
+                    // (range: rebuild through its prefixes like run_replay does)
+                    Model  pm = m;
+                    Result prr;
+                    for (int k = 1; k < ops[i].n; k++)
+                    {
+                        Op po = ops[i];
+                        po.n  = k;
+                        Tr                pt = exec(h, &po);
+                        std::vector<Viol> pv;
+                        Result            prev = prr;
+                        SP::step(pm, cfg, a.kn, po, pt.r, k >= 2 ? &prev : nullptr, pt.ob, pt.sc, pv);
+                        prr = pt.r;
+                    }
+                    Model post = pm;
+                    SP::step(post, cfg, a.kn, ops[i], t.r, &prr, t.ob, t.sc, vs);
+                    m = post;
+                }
+                else
+                    SP::step(m, cfg, a.kn, ops[i], t.r, nullptr, t.ob, t.sc, vs);
+                h.push_back(ops[i]);
+            }
+            return m;
+        };
+        const Op&       last = ops.back();
+        std::vector<Op> hist(ops.begin(), ops.end() - 1);
+        if (last.rngq == 255 && ops.size() >= 2 && last.k == OpK::Insert && ops[ops.size() - 2].k == OpK::Insert)
+        {
+            // consecutive evictions: first (all quantiles) then the re-insert of its victim from the advanced stream
+            std::vector<Op> h0(ops.begin(), ops.end() - 2);
+            Model           m     = model_after(h0.size());
+            Op              first = ops[ops.size() - 2];
+            int             akey = first.key[0], same = 0, total = 0;
+            for (int q = 0; q < RNGQ; q++)
+            {
+                first.rngq = q;
+                Tr  t1     = exec(h0, &first);
+                int v      = 0;
+                for (int j = 1; j <= cfg.nkeys; j++)
+                    if (j != akey && SP::live(m, j) && !t1.sc.e[j].present)
+                        v = j;
+                if (!v)
+                    continue;
+                Op second     = last;
+                second.key[0] = v;
+                std::vector<Op> h2 = h0;
+                h2.push_back(first);
+                Tr t2 = exec(h2, &second);
+                total++;
+                same += !t2.sc.e[akey].present;
+                printf("    quantile %2d: insert(k%d) evicts k%d, re-inserting k%d then evicts %s\n", q, akey, v, v, t2.sc.e[akey].present ? "another key" : "the key just inserted");
+            }
+            if (total == RNGQ && same == RNGQ)
+            {
+                printf("    DEVIATION [C15] for all %d generator seeds the eviction that follows another one hits the same position again\n", RNGQ);
+                return 1;
+            }
+            return 0;
+        }
+        Model m = model_after(hist.size());
+        bool  single = last.k == OpK::Insert && (last.allow & 1) && m.obs.size >= cfg.cap && !SP::live(m, last.key[0]);
+        bool  range1 = (last.allow & 1) && m.obs.size < cfg.cap && c15_one_eviction_range(m, last);
+        if (!single && !range1)
+            return 0;
+        std::vector<int> residents;
+        for (int j = 1; j <= cfg.nkeys; j++)
+            if (SP::live(m, j))
+                residents.push_back(j);
+        for (int j = 0; j + 1 < last.n; j++)
+            residents.push_back(last.key[j]);
+        std::map<int, int> victims;
+        for (int q = 0; q < RNGQ; q++)
+        {
+            Op o   = last;
+            o.rngq = q;
+            Tr t   = exec(hist, &o);
+            int v  = 0;
+            for (int j : residents)
+                if (!t.sc.e[j].present)
+                    v = j;
+            victims[v]++;
+        }
+        bool        uneven = false;
+        std::string desc;
+        for (int j : residents)
+        {
+            int c = victims.count(j) ? victims[j] : 0;
+            desc += "key" + std::to_string(j) + ":" + std::to_string(c) + " ";
+            if (c * (int)residents.size() != RNGQ)
+                uneven = true;
+        }
+        printf("    victims of %s over the %d generator quantiles: %s\n", op_str(last).c_str(), RNGQ, desc.c_str());
+        if (uneven)
+        {
+            printf("    DEVIATION [C15] eviction choice is not spread evenly over the residents\n");
+            return 1;
+        }
+        return 0;
     }
 
     void print_json()
@@ -1809,6 +1972,40 @@ struct Fill
                         mbad(14, "use count " + std::to_string(cnt) + " aged with ratio " + std::to_string(rt) + " became " + std::to_string(q.v[2]) + ", expected " + std::to_string(want));
                 }
             }
+            else if (id == 9 && (T.ttl_map || (T.ttl_cache && !T.ttl_per_entry)) && N == 1)
+            {
+                // a very long UNIFORM TTL (100 days), given to the constructor and - utlru - through update_ttl:
+                // alive one day before the deadline, gone at the deadline
+                const int64_t day = 24LL * 3600 * 1000 * MS;
+                for (int via_update = 0; via_update <= (T.has_update_ttl ? 1 : 0); via_update++)
+                {
+                    Config c2 = cfg;
+                    c2.cap    = 2;
+                    if (!via_update)
+                        c2.ttl_big_ms = 100LL * 24 * 3600 * 1000;
+                    g_now_ns = t0c;
+                    AD a2(c2);
+                    if (via_update)
+                    {
+                        Op u      = simple(OpK::UpdateTtl);
+                        u.ttl_big = 100LL * 24 * 3600 * 1000;
+                        a2.apply(u);
+                    }
+                    a2.apply(mkins(1, 9200));
+                    g_now_ns += 99 * day;
+                    if (!a2.apply(mk1(OpK::Find, 1)).v[0])
+                        mbad(5, std::string("an entry written under a uniform TTL of 100 days (") + (via_update ? "update_ttl" : "constructor") + ") is gone after 99 days");
+                    // an update restarts the same long TTL
+                    Op w2 = mkins(1, 9201);
+                    a2.apply(w2);
+                    g_now_ns += 99 * day;
+                    if (!a2.apply(mk1(OpK::Find, 1)).v[0])
+                        mbad(5, std::string("an entry updated under a uniform TTL of 100 days (") + (via_update ? "update_ttl" : "constructor") + ") is gone 99 days after the update");
+                    g_now_ns += day;
+                    if (a2.apply(mk1(OpK::Find, 1)).v[0])
+                        mbad(4, "an entry written under a uniform TTL of 100 days is still served at its deadline");
+                }
+            }
             else if (id == 6 && T.has_uc)
             {
                 // many uses of one key
@@ -1839,7 +2036,7 @@ struct Fill
         static const int sizes[] = {1, 2, 3, 7, 33, 64, 65, 100, 127, 128, 129, 130, 257, 513, 700, 1025, 2049};
         for (int N : sizes)
             if (N <= nmax)
-                for (int id = 0; id <= 8; id++)
+                for (int id = 0; id <= 9; id++)
                     mass_script(id, N);
     }
 
